@@ -1,6 +1,9 @@
 package ch
 
-import "context"
+import (
+	"context"
+	"sync"
+)
 
 type (
 	ctxQueryKey  struct{}
@@ -12,24 +15,47 @@ type (
 		Rows            int
 		Bytes           int
 	}
+	// queryMetricsTotal accumulates queryMetrics of a single query.
+	//
+	// It is updated concurrently by the sending and the receiving goroutines
+	// of Do, so all access goes through mux.
+	queryMetricsTotal struct {
+		mux sync.Mutex
+		v   queryMetrics
+	}
 )
+
+// add applies delta to the accumulated metrics.
+func (t *queryMetricsTotal) add(delta queryMetrics) {
+	t.mux.Lock()
+	defer t.mux.Unlock()
+
+	t.v.Bytes += delta.Bytes
+	t.v.Rows += delta.Rows
+	t.v.RowsReceived += delta.RowsReceived
+	t.v.BlocksReceived += delta.BlocksReceived
+	t.v.BlocksSent += delta.BlocksSent
+
+	if delta.ColumnsReceived > 0 {
+		t.v.ColumnsReceived = delta.ColumnsReceived
+	}
+}
+
+// get returns the accumulated metrics.
+func (t *queryMetricsTotal) get() queryMetrics {
+	t.mux.Lock()
+	defer t.mux.Unlock()
+
+	return t.v
+}
 
 func (c *Client) metricsInc(ctx context.Context, delta queryMetrics) {
 	if !c.otel {
 		return
 	}
-	v, ok := ctx.Value(ctxQueryKey{}).(*queryMetrics)
+	v, ok := ctx.Value(ctxQueryKey{}).(*queryMetricsTotal)
 	if !ok {
 		return
 	}
-
-	v.Bytes += delta.Bytes
-	v.Rows += delta.Rows
-	v.RowsReceived += delta.RowsReceived
-	v.BlocksReceived += delta.BlocksReceived
-	v.BlocksSent += delta.BlocksSent
-
-	if delta.ColumnsReceived > 0 {
-		v.ColumnsReceived = delta.ColumnsReceived
-	}
+	v.add(delta)
 }
